@@ -68,6 +68,62 @@ theorem scoped_names_in_range (ops : List Op) :
     ∀ d ∈ (run init ops).defs, ∀ l, d.loc = some l → l < (run init ops).sheets.length :=
   (invariant_any_history ops).defs_ok
 
+/-- clause "index arithmetic" (round 5): after ANY history `GetSheetIndex` and `GetSheetName` are mutually
+inverse: the name at every index below the length of the list is found again at exactly that index (no
+error: listed names are valid; no earlier case-insensitive match: names are unique), an index returned for a
+name `n` is in range and carries a name equal to `n` up to ASCII case, which in turn is found at that index,
+and `GetSheetName` answers "" exactly outside the list. Lean counterpart of the harness oracles
+`inv:getsheetindex`, `inv:getsheetindex-ci`, `inv:getsheetname`; transcript ops `gidx`, `gnm`. -/
+theorem index_name_inverse (ops : List Op) :
+    (∀ i, i < (run init ops).sheets.length →
+      getSheetIndex (run init ops) (getSheetName (run init ops) i) = .ok (some i)) ∧
+    (∀ n i, getSheetIndex (run init ops) n = .ok (some i) →
+      i < (run init ops).sheets.length ∧ eqFold (getSheetName (run init ops) i) n = true ∧
+      getSheetIndex (run init ops) (getSheetName (run init ops) i) = .ok (some i)) ∧
+    (∀ i, getSheetName (run init ops) i = [] ↔ (run init ops).sheets.length ≤ i) := by
+  have hi : Inv (run init ops) := run_inv init ops init_inv
+  generalize run init ops = s at hi
+  have fwd : ∀ i, i < s.sheets.length → getSheetIndex s (getSheetName s i) = .ok (some i) := by
+    intro i hlt
+    have hx : s.sheets[i]? = some s.sheets[i] := List.getElem?_eq_getElem hlt
+    have hmem : s.sheets[i] ∈ s.sheets := List.mem_of_getElem? hx
+    have hv := (validName_iff _).mp (hi.valid _ hmem)
+    unfold getSheetName getSheetIndex
+    rw [hx]; dsimp only
+    rw [hv]; dsimp only
+    simp only [fact_foldGetSheetIndex, nameEq_true]
+    have := idxOf?_nodup (fun sh : Sheet => fold sh.name) s.sheets i _ hi.uniq_ci hx
+    simp only [eqFold]
+    rw [← this]
+    congr 2
+    funext y
+    apply Bool.eq_iff_iff.mpr
+    simp only [beq_iff_eq]
+  refine ⟨fwd, ?_, ?_⟩
+  · intro n i h
+    obtain ⟨_, hr⟩ := getSheetIndex_ok s n _ h
+    have hlt := idxOf?_lt _ _ _ hr.symm
+    obtain ⟨x, hx, hp⟩ := idxOf?_getElem _ _ _ hr.symm
+    refine ⟨hlt, ?_, fwd i hlt⟩
+    unfold getSheetName
+    rw [hx]; exact hp
+  · intro i
+    constructor
+    · intro h
+      by_cases hlt : i < s.sheets.length
+      · exfalso
+        have hx : s.sheets[i]? = some s.sheets[i] := List.getElem?_eq_getElem hlt
+        have hmem : s.sheets[i] ∈ s.sheets := List.mem_of_getElem? hx
+        have hv := (validName_iff _).mp (hi.valid _ hmem)
+        unfold getSheetName at h
+        rw [hx] at h; dsimp only at h
+        rw [h] at hv
+        simp [checkSheetName] at hv
+      · omega
+    · intro h
+      unfold getSheetName
+      rw [List.getElem?_eq_none h]
+
 /-! ## clause "index arithmetic across sheet ids, relationship ids, part paths": the bookkeeping
 invariant over any history, and the explicit "model gap" / "panic" outcomes are unreachable -/
 
